@@ -91,7 +91,21 @@ def run(ctx):
         got = [eval_fn(gnb, [v, n]) for n in range(4)]
         if got != list(v.to_bytes(4, 'big')):
             okb = False
-    rep.check(r1, okb, 'get_nth_byte:big-endian', 'get_nth_byte(v, 0..3) = big-endian bytes of v on 5 bit patterns: %s' % okb, '%s:%d' % (gnb.file, gnb.line))
+    # ... and for every value: bit provenance of the returned byte for nth = 0..3
+    from vlib.bits import BitEval, describe
+    rets_ = gnb.return_blocks()
+    okbits, shown = len(rets_) == 1, []
+    if okbits:
+        rv_ = gnb.ret_value(rets_[0])
+        for n_ in range(4):
+            e_ = rewrite(rv_, lambda x: ('const', n_, None, 'u8') if x == ('param', 2) else None)
+            b_ = BitEval(lambda x: ('value', 32) if x == ('param', 1) else None).bits(e_)
+            want_ = [('in', 'value', 8 * (3 - n_) + k) for k in range(8)]
+            got_ = (b_ + [0] * 32)[:32] if b_ is not None else None
+            if got_ is None or got_[:8] != want_ or any(x != 0 for x in got_[8:]):
+                okbits = False
+            shown.append(describe(b_[:8]) if b_ else '?')
+    rep.check(r1, okb and okbits, 'get_nth_byte:big-endian', 'get_nth_byte(v, n) = bits 8(3-n)..8(3-n)+7 of v for n = 0..3, bit-exact for every v (%s); concrete evaluation on 5 patterns agrees: %s' % (' | '.join(shown), okb), '%s:%d' % (gnb.file, gnb.line))
     it4 = pu32.calls(r'IntoIterator>::into_iter$|IntoIterator::into_iter$')
     rg = peel(pu32.argv(it4[0][0], 0), unwraps=False) if it4 else None
     okr = rg is not None and rg[0] == 'agg' and [const_val(x) for x in rg[2]] == [0, 4]
@@ -341,13 +355,9 @@ def run(ctx):
     # read_u32 itself: value * 256 + byte, state advance at the 4th byte
     ru = F.fn(R + 'read_u32')
     rv = ru._through(ru.ret_value(ru.return_blocks()[0]), (ru.return_blocks()[0], 0), 0)
-    v = peel(rv, casts=True)
-    if isinstance(v, tuple) and v[0] == 'field':
-        v = v[1]
-    ok = isinstance(v, tuple) and v[0] == 'bin' and v[1] in ('Add', 'AddWithOverflow')
-    if ok:
-        m_ = peel(v[2], casts=True)
-        if isinstance(m_, tuple) and m_[0] == 'field':
-            m_ = m_[1]
-        ok = isinstance(m_, tuple) and m_[0] == 'bin' and m_[1] in ('Mul', 'MulWithOverflow') and peel(m_[2]) == ('param', 3) and const_val(m_[3]) == 256 and peel(v[3], casts=True) == ('param', 2)
-    rep.check(r6, ok, 'read_u32:accumulate', 'read_u32 returns %s' % short(rv)[:80])
+    # bit-exact for every value and byte, whatever the spelling (value * 256 + byte, (value << 8) | byte, ...)
+    from vlib.bits import BitEval, describe
+    bits_ = BitEval(lambda x: ('value', 32) if x == ('param', 3) else ('byte', 8) if x == ('param', 2) else None).bits(rv)
+    want_ = [('in', 'byte', k) for k in range(8)] + [('in', 'value', k) for k in range(24)]
+    ok = bits_ is not None and (bits_ + [0] * 32)[:32] == want_
+    rep.check(r6, ok, 'read_u32:accumulate', 'read_u32 returns (value << 8) | byte, bit-exact for every value and byte: %s (expression %s)' % (ok, short(rv)[:60]))
